@@ -138,7 +138,8 @@ Definition validate_siacoins (s : lstate) (m : mid) (t : txn1) (ts : supp1) : R 
        end) (t1_sci t) 0;
   do o1 <- csum (map (fun x => sco_value (snd x)) (t1_sco t)) 0;
   do o2 <- csum (map (fun x => fc_payout (snd (fst x))) (t1_fc t)) o1;
-  do o3 <- csum (t1_fees t) o2;
+  do o3 <- (fix go (l : list Z) (acc : Z) : R Z :=
+              match l with [] => Ok acc | f :: r => if C128 <=? acc + f then err 21 else go r (acc + f) end) (t1_fees t) o2;
   if insum =? o3 then Ok tt else err 29.
 
 Definition validate_siafunds (s : lstate) (m : mid) (t : txn1) (ts : supp1) : R unit :=
